@@ -360,7 +360,89 @@ def check_C12(tier, replay=None):
                   ["FNV digest of the emitted bytes", "TLC", "fresh processes get fresh hash seeds (std RandomState)"])
 
 
-CHECKS = {"C12": check_C12, "C09": check_C09, "C10": check_C10, "C08": check_C08, "C11": check_C11, "C06": check_C06, "C15": check_C15, "C02": check_C02}
+# ------------------------------------------------------------------------- C13
+
+FEATURES = '{"enum_no_value", "start_unknown", "self_reference", "ns_255", "ref_ladder", "import_cycle"}'
+
+
+def check_C13(tier, replay=None):
+    import random
+    R = Result("C13", tier)
+    dev = [d for d in z.dev_set() if d in ("D24a", "D24b", "D24c", "D24d", "D24e", "D03")]
+    devs = tla_set(dev)
+    z.build_harness()
+    consts = {"Dev": devs, "Features": FEATURES, "MaxIdx": "4" if tier == "quick" else "8"}
+    c = cfg("MCSpec", consts, invariants=["Robust"], properties=["Terminates"])
+    res, vocab, _, tagged = mc_run(R, "MC_C13", c, "MC_C13", workers=4, need_ok=not dev)
+    bases = [p for t, p in tagged if t == "BASE"]
+    muts = [p for t, p in tagged if t == "MUT"]
+    log(f"MC_C13: {res['distinct']} states, {len(bases)} bases, {len(muts)} single mutations")
+    rnd = random.Random(z.seed())
+    cases = []
+
+    def add(base, ms, label):
+        c = {"prop": "C13", "drv": "robust", "label": label, "start": base.get("start", ""), "files": base.get("files", []),
+             "muts": ms, "feat": sorted(set(base.get("feat", [])) | ({"enum_no_value"} if any(m.get("attr") == "value" and m.get("op") == "drop_attr" for m in ms) else set()))}
+        for k in ("path", "start_override"):
+            if k in base:
+                c[k] = base[k]
+        cases.append(c)
+
+    nfiles = lambda b: max(1, len(b.get("files", [])))
+    for b in bases:
+        add(b, [], b["label"] + "/unmutated")
+        if not b.get("mutable"):
+            continue
+        for m in muts:
+            for fi in range(1, nfiles(b) + 1):
+                if fi > 1 and m["op"] != "content" and rnd.random() > 0.15:
+                    continue       # the second file mostly stays as it is
+                add(b, [dict(m, file=fi)], b["label"] + "/" + m["op"])
+        npairs = 400 if tier == "quick" else 6000
+        for _ in range(npairs):
+            m1, m2 = rnd.choice(muts), rnd.choice(muts)
+            add(b, [dict(m1, file=1), dict(m2, file=rnd.randint(1, nfiles(b)))], b["label"] + "/pair")
+    # the repository's real schemas, mutated
+    per_doc = 40 if tier == "quick" else 600
+    for cc in corpus_cases("C13", "robust"):
+        if tier == "quick" and "exchange" in cc["path"]:
+            per = 4
+        else:
+            per = per_doc
+        base = {"path": cc["path"], "label": cc["label"]}
+        add(base, [], cc["label"] + "/unmutated")
+        for _ in range(per):
+            add(base, [dict(rnd.choice(muts), file=1)], cc["label"] + "/" + "mut")
+    for i, cs in enumerate(cases):
+        cs["id"] = i + 1
+    R.cases, R.vocab = cases, vocab
+    log(f"{len(cases)} cases")
+    traces, crashed = z.run_harness(vocab, cases, "C13", per_case_timeout=30)
+    tcfg = cfg("TraceSpec", {"Dev": devs, "Features": FEATURES}, post="Accepted")
+    viol, known, stale, drift = trace_run(R, "Trace_C13", tcfg, traces, "T_C13")
+    R.viol = viol
+    for k in known:
+        for d in (k.get("devs") or ["?"]):
+            R.known.setdefault(d, k)
+    applied = 0
+    for t in traces:
+        for line in open(t):
+            if '"mutated"' in line and '"applied": true' in line.replace('"applied":true', '"applied": true'):
+                applied += 1
+    R.extra["crashed_or_timed_out_workers"] = crashed
+    R.extra["mutations_that_applied"] = applied
+    R.extra["not_modelled"] = "byte-level content of arbitrary UTF-8 text inside the XML parser is represented by 11 content classes only; a coverage-guided fuzzer would be the tool for that part"
+    R.samples = [{"label": c["label"], "muts": c["muts"]} for c in cases[5:8]]
+    rc = finish(R, "model_checking",
+                "TLC enumerates the mutation descriptors (drop/alter each of 18 attributes at occurrence 1..4 (8 thorough) with 11 replacement classes; delete/duplicate/move 25 element kinds; wrong roots; 11 whole-file content classes) and prints the base documents (a rich two-file XSD, a WSDL with headers and a one-way operation, a self-/mutually-referential schema, a 26-level forward-reference ladder, an unregistered start file); cases = every base x every single mutation, seeded pairs, and the repository's schemas x seeded mutations; each runs read_xml + write_xml in an isolated worker with a time bound of 2 s + 1 ms/byte; distinct by (base, descriptors); non-trivial = the descriptor applied",
+                ["XML-level mutator of the harness (harness/src/mutate.rs)", "TLC", "worker isolation and watchdog of lib/zvlib.py"])
+    ev = json.load(open(os.path.join(z.VERIF, "evidence", "C13.json")))
+    ev["coverage"]["distinct_nontrivial"] = applied
+    json.dump(ev, open(os.path.join(z.VERIF, "evidence", "C13.json"), "w"), indent=1)
+    return rc
+
+
+CHECKS = {"C13": check_C13, "C12": check_C12, "C09": check_C09, "C10": check_C10, "C08": check_C08, "C11": check_C11, "C06": check_C06, "C15": check_C15, "C02": check_C02}
 
 
 def main(argv):
